@@ -58,6 +58,25 @@ pub struct Inner {
     pub read_script_pos: usize,
     /// repeat the read script cyclically
     pub read_script_cycle: bool,
+    /// paths this process had open when the file was created; anything else that shows up under /proc/self/fd while the code under test
+    /// works on this file is a side file of its own making (a temporary file, also an unnamed one)
+    pub fd_baseline: std::collections::HashSet<String>,
+    pub fd_reported: bool,
+}
+
+fn open_paths() -> std::collections::HashSet<String> {
+    let mut s = std::collections::HashSet::new();
+    if let Ok(rd) = std::fs::read_dir("/proc/self/fd") {
+        for e in rd.flatten() {
+            if let Ok(t) = std::fs::read_link(e.path()) {
+                let t = t.to_string_lossy().to_string();
+                if t.starts_with('/') && !t.starts_with("/dev/") && !t.starts_with("/proc/") && !t.starts_with("/sys/") {
+                    s.insert(t);
+                }
+            }
+        }
+    }
+    s
 }
 
 #[derive(Clone)]
@@ -79,6 +98,8 @@ impl TraceFile {
                 read_script: vec![],
                 read_script_pos: 0,
                 read_script_cycle: false,
+                fd_baseline: if std::env::var("VH_FDWATCH").is_ok() { open_paths() } else { Default::default() },
+                fd_reported: false,
             })),
             pos: 0,
             seek_to: None,
@@ -156,6 +177,14 @@ impl AsyncWrite for TraceFile {
         let pos = self.pos as usize;
         let mut i = self.inner.lock().unwrap();
         i.writes += 1;
+        if !i.fd_baseline.is_empty() && !i.fd_reported && i.writes % 2 == 1 {
+            let now = open_paths();
+            let new: Vec<String> = now.difference(&i.fd_baseline).cloned().collect();
+            if !new.is_empty() {
+                i.fd_reported = true;
+                i.log.lock().unwrap().push(Ev::Json(serde_json::json!({"ev": "side_file", "paths": new})));
+            }
+        }
         let (n, fault) = if i.fault.k != 0 && i.writes == i.fault.k {
             i.fault_fired = true;
             let t = i.fault.tear.min(buf.len());
